@@ -377,8 +377,40 @@ def r9_line_ends_are_equal_for_the_renderer(ctx):
     r5b_renderer_indexes_stay_inside(ctx)
 
 
+def r10_keyword_words_end_at_identifier_bytes(ctx):
+    """`small pass`, `if to say`, `if not so` are recognised word by word.  A word ends where an identifier would end: the byte
+    after it is not a letter, not an underscore and not a digit.  If digits are not excluded, `small` on one line and an
+    identifier `pass1` on the next are glued into the operator `small pass` followed by `1` - a program made of documented
+    constructs that is rejected, and whose acceptance depends on how it is laid out."""
+    fn = ctx.need(LEX + "try_consume_word")
+    ctx.touch(fn)
+    classes = set()
+    for S in sorted(fn.live):
+        if fn.blocks[S]["t"]["k"] != "switch":
+            continue
+        si = fn.switch_info(S)
+        txt = sh(ne(fn.deep(fn.blocks[S]["t"]["d"])))
+        if "len(word)" not in txt.replace(" ", "") and "end" not in txt:
+            continue
+        if si["kind"] == "call":
+            short = (si["callee"] or "").split("::")[-1]
+            if short in ("is_alpha_or_underscore", "is_ascii_alphabetic"):
+                classes |= {"alpha"} | ({"underscore"} if short == "is_alpha_or_underscore" else set())
+            if short == "is_ascii_digit":
+                classes.add("digit")
+            if short == "is_ascii_alphanumeric":
+                classes |= {"alpha", "digit"}
+        if si["kind"] == "bin" and si["op"] in ("Eq", "Ne") and 95 in ((si["a"].get("int") if isinstance(si["a"], dict) else None), (si["b"].get("int") if isinstance(si["b"], dict) else None)):
+            classes.add("underscore")
+    missing = {"alpha", "underscore", "digit"} - classes
+    if not missing:
+        ctx.ok("word-boundary", fn.where(), "the byte after a keyword word is tested against letters, digits and underscore")
+    else:
+        ctx.bad("word-boundary|%s-not-excluded" % "+".join(sorted(missing)), fn.where(), "try_consume_word accepts a keyword word although it is followed by a %s: `small` and an identifier `pass1` (on the next line) are read as the operator `small pass` and the number 1, so a valid program is rejected and its reading depends on layout" % "/".join(sorted(missing)))
+
+
 RULES = [("C10-R1", r1_one_whitespace_predicate), ("C10-R2", r2_tokens_carry_no_layout), ("C10-R3", r3_parser_sees_only_tokens),
-         ("C10-R4", r4_lookahead_rollback), ("C10-R5", r5_parentheses_add_no_node), ("C10-R6", r6_word_is_identifier_bytes), ("C10-R7", r7_token_start_after_layout), ("C10-R8", r8_adjacency_errors_are_identifier_glue_only), ("C10-R9", r9_line_ends_are_equal_for_the_renderer)]
+         ("C10-R4", r4_lookahead_rollback), ("C10-R5", r5_parentheses_add_no_node), ("C10-R6", r6_word_is_identifier_bytes), ("C10-R7", r7_token_start_after_layout), ("C10-R8", r8_adjacency_errors_are_identifier_glue_only), ("C10-R9", r9_line_ends_are_equal_for_the_renderer), ("C10-R10", r10_keyword_words_end_at_identifier_bytes)]
 
 EXPLANATION = (
     "R1: both whitespace-skipping loops of the scanner (between tokens, between the words of a multi-word keyword) use the "
@@ -397,6 +429,9 @@ EXPLANATION += (
 )
 EXPLANATION += (
     " R7: next_token records the token's start position after all layout in front of it has been skipped - no skip_whitespace / skip_comment can run between the assignment of `start` and a use of it. R8: the only rejection that depends on the byte following a complete number literal is the word-glued-to-number case, raised under an identifier-class test of that byte and nothing else. R9 (= C07-R5b): the line table's CRLF look-ahead stays inside the text."
+)
+EXPLANATION += (
+    ' R10: the byte after a keyword word (`small`/`pass`, `if`/`to`/`say`, ...) is tested against all three identifier classes - letters, underscore and digits - so that a word ends where an identifier would end.'
 )
 ASSUMPTIONS = ["layout bytes are exactly those accepted by u8::is_ascii_whitespace"]
 TRUSTED = ["rustc nightly MIR", "nsx exporter", "nsverif reachability"]
